@@ -171,7 +171,10 @@ func TestChildRender(t *testing.T) {
 
 // ---- generator of map-rich recipes ----
 
-var collide = []string{"a/d", "b/d", "c/d", "x.y/D", "q/d1", "e/d", "fmt", "x/fmt", "math/rand", "crypto/rand", "z/rand", "text/template", "html/template", "q/e", "r/e"}
+// (the last five are directories of the installed toolchain's src tree that are packages only under some
+// build configuration or no packages of the standard library at all: what a File calls them must not depend
+// on what the machine it is rendered on has installed)
+var collide = []string{"a/d", "b/d", "c/d", "x.y/D", "q/d1", "e/d", "fmt", "x/fmt", "math/rand", "crypto/rand", "z/rand", "text/template", "html/template", "q/e", "r/e", "arena", "crypto/boring", "runtime/msan", "syscall/js", "cmd/asm"}
 
 func key(t *rapid.T) *recipe.Node {
 	switch rapid.IntRange(0, 5).Draw(t, "keykind") {
